@@ -90,7 +90,7 @@ CATALOGUE = [
     ('errors', 3), ('errors_union', 3), ('errors_islands', 2), ('role_algebra', 2), ('node_contexts', 3), ('appears_inverted', 3), ('alignments', 2),
     ('tree_nodes_walk', 2), ('graph_eq', 1), ('codec_api', 3), ('model_reify', 3), ('model_from_dict', 1),
     ('raising_key', 3), ('model_copies', 2), ('sniff_then_decode', 2), ('canonicalize_then_rearrange', 3),
-    ('decode_edit_marker_decode', 2),
+    ('decode_edit_marker_decode', 2), ('edit_own_model', 2),
     # derive, then mutate the derived object in place
     ('or_then_ior', 3), ('sub_then_isub', 3), ('copy_then_top', 2), ('configure_then_rearrange', 3),
     ('configure_then_reset_variables', 3), ('or_then_sort', 2), ('indicate_then_ior', 2),
@@ -459,6 +459,37 @@ def run_op(w, op, local):
             return ['INVARIANT-BROKEN', 'decode-result-shares-marker-objects-with-an-earlier-result',
                     {'edited_markers': edited, 'before': _short(before), 'after': _short(after)}]
         return [edited, after]
+    if name == 'edit_own_model':
+        # a model the caller built itself and then edits through its public tables: every later answer must be the
+        # answer of a fresh model with the edited tables (nothing remembered about the object)
+        from penman.model import Model
+
+        def build(norm):
+            sp = {k_: v_ for k_, v_ in gmodels.CUSTOM_SPECS[0].items()}
+            sp['reifications'] = [tuple(r_) for r_ in sp['reifications']]
+            sp['normalizations'] = dict(norm)
+            return Model(**sp)
+
+        def answers(m):
+            roles = [':mod-of', ':domain-of', ':mod', ':ARG0-of-of', ':loc-of', ':quant']
+            tt_ = penman.parse('(a / alpha :mod-of (b / beta :domain-of c) :loc-of-of d)')
+            return [[m.canonicalize_role(r_) for r_ in roles], [m.is_role_inverted(r_) for r_ in roles],
+                    digest.canon(transform.canonicalize_roles(tt_, m)),
+                    [list(m.canonicalize(('x', r_, 'y'))) for r_ in roles]]
+        base = dict(gmodels.CUSTOM_SPECS[0]['normalizations'])
+        m = build(base)
+        first = answers(m)
+        edited = dict(base)
+        edited[':mod-of'] = [':loc', ':quant', ':mod'][op['a'] % 3]
+        edited[':loc-of'] = ':domain'
+        m.normalizations.clear()
+        m.normalizations.update(edited)
+        second = answers(m)
+        fresh = answers(build(edited))
+        if second != fresh:
+            return ['INVARIANT-BROKEN', 'edited-model-answers-differ-from-a-fresh-model-with-the-same-tables',
+                    {'answers_of_edited_model': _short(second), 'answers_of_fresh_model': _short(fresh)}]
+        return [first, second]
     if name == 'sniff_then_decode':
         # format sniffing: try the triple-conjunction parser first, fall back to PENMAN
         try:
